@@ -34,11 +34,27 @@ MUT = [
  ("c02-detach-restores-with-detached-block-number", "store/src/cell.rs", "                    let block_number = info.block_number;\n                    let block_epoch = info.block_epoch;\n                    let tx_index = info.index;", "                    let block_number = block.number();\n                    let block_epoch = info.block_epoch;\n                    let tx_index = info.index;", "C02", "m3"),
  ("c02-delete-cells-forgets-hash-column", "store/src/transaction.rs", "            self.delete(COLUMN_CELL_DATA, &key)?;\n            self.delete(COLUMN_CELL_DATA_HASH, &key)?;", "            self.delete(COLUMN_CELL_DATA, &key)?;", "C02", "m4"),
  ("c02-rollback-oldest-first", "chain/src/verify.rs", "        for block in fork.detached_blocks().iter().rev() {", "        for block in fork.detached_blocks().iter() {", "C02", "m5"),
+ ("c12-restage-uses-old-snapshot", "tx-pool/src/process.rs", "            if snapshot.proposals().contains_proposed(&short_id) {\n                proposals.push((short_id, entry.inner.clone()));", "            if tx_pool.snapshot.proposals().contains_proposed(&short_id) {\n                proposals.push((short_id, entry.inner.clone()));", "C12", "m1"),
+ ("c12-detached-before-committed", "tx-pool/src/process.rs", "    tx_pool.remove_committed_txs(attached.iter(), callbacks, detached_headers);\n    tx_pool.remove_by_detached_proposal(detached_proposal_id.iter());", "    tx_pool.remove_by_detached_proposal(detached_proposal_id.iter());\n    tx_pool.remove_committed_txs(attached.iter(), callbacks, detached_headers);", "C12", "m1"),
+ ("c12-pending-gap-first", "tx-pool/src/process.rs", "            if snapshot.proposals().contains_proposed(&short_id) {\n                proposals.push(elem);\n            } else if snapshot.proposals().contains_gap(&short_id) {\n                gaps.push(elem);", "            if snapshot.proposals().contains_gap(&short_id) {\n                gaps.push(elem);\n            } else if snapshot.proposals().contains_proposed(&short_id) {\n                proposals.push(elem);", "C12", "m1"),
+ ("c12-header-dep-always-skipped", "tx-pool/src/pool.rs", "        if !detached_headers.is_empty() {\n            self.resolve_conflict_header_dep(detached_headers, callbacks)", "        if detached_headers.is_empty() {\n            self.resolve_conflict_header_dep(detached_headers, callbacks)", "C12", "m2"),
+ ("c12-retain-attached-minus-detached", "tx-pool/src/process.rs", "let retain: Vec<TransactionView> = detached.difference(&attached).cloned().collect();", "let retain: Vec<TransactionView> = attached.difference(&detached).cloned().collect();", "C12", "m3"),
+ ("c12-readd-before-update", "tx-pool/src/process.rs", "            _update_tx_pool_for_reorg(\n                &mut tx_pool,\n                &attached,\n                &detached_headers,\n                detached_proposal_id,\n                snapshot,\n                &self.callbacks,\n                mine_mode,\n            );\n\n            // notice: readd_detached_tx don't update cache\n            self.readd_detached_tx(&mut tx_pool, retain, fetched_cache)\n                .await;", "            self.readd_detached_tx(&mut tx_pool, retain, fetched_cache)\n                .await;\n            _update_tx_pool_for_reorg(\n                &mut tx_pool,\n                &attached,\n                &detached_headers,\n                detached_proposal_id,\n                snapshot,\n                &self.callbacks,\n                mine_mode,\n            );", "C12", "m3"),
+ ("c13-total-by-uncles-adds-old", "tx-pool/src/block_assembler/mod.rs", "            self.total.saturating_add(new_uncles_size - self.uncles)", "            self.total.saturating_add(new_uncles_size)", "C13", "m1"),
+ ("c13-update-proposals-le", "tx-pool/src/block_assembler/mod.rs", "        let new_total_size = current.size.calc_total_by_proposals(new_proposals_size);\n        let max_block_bytes = consensus.max_block_bytes() as usize;\n        if new_total_size < max_block_bytes {", "        let new_total_size = current.size.calc_total_by_proposals(new_proposals_size);\n        let max_block_bytes = consensus.max_block_bytes() as usize;\n        if new_total_size < max_block_bytes + new_proposals_size {", "C13", "m4"),
+ ("c13-update-full-cycles-from-bytes", "tx-pool/src/block_assembler/mod.rs", "            let max_block_cycles = consensus.max_block_cycles();\n            let (txs, _txs_size, _cycles) =\n                tx_pool_reader.package_txs(max_block_cycles, txs_size_limit);", "            let max_block_cycles = consensus.max_block_bytes();\n            let (txs, _txs_size, _cycles) =\n                tx_pool_reader.package_txs(max_block_cycles, txs_size_limit);", "C13", "m2"),
+ ("c13-uncle-number-le", "tx-pool/src/block_assembler/candidate_uncles.rs", "                && uncle.number() < candidate_number", "                && uncle.number() <= candidate_number", "C13", "m3"),
+ ("c13-uncle-parent-check-dropped", "tx-pool/src/block_assembler/candidate_uncles.rs", "                    || snapshot.is_main_chain(&parent_hash)\n                    || snapshot.is_uncle(&parent_hash))", "                    || snapshot.is_main_chain(&parent_hash)\n                    || !snapshot.is_uncle(&parent_hash))", "C13", "m3"),
+ ("c18-rollback-keeps-tx-type-rows", "util/indexer/src/indexer.rs", "                                    CellType::Output,\n                                )\n                                .into_vec(),\n                            )?;\n                        };\n                        batch.delete(out_point_key)?;", "                                    CellType::Input,\n                                )\n                                .into_vec(),\n                            )?;\n                        };\n                        batch.delete(out_point_key)?;", "C18", "m1"),
+ ("c18-append-live-cell-wrong-tx-index", "util/indexer/src/indexer.rs", "                    Value::Cell(block_number, tx_index, &output, &output_data),", "                    Value::Cell(block_number, output_index, &output, &output_data),", "C18", "m1")
 ]
 sel = set(sys.argv[1:])
 for name, path, old, new, pid, only in MUT:
     if sel and name not in sel:
         continue
+    import fcntl
+    lk = open("/tmp/repo.lock", "w")
+    fcntl.flock(lk, fcntl.LOCK_EX)
     p = os.path.join(R, path)
     s = open(p).read()
     if s.count(old) != 1:
@@ -51,3 +67,5 @@ for name, path, old, new, pid, only in MUT:
         print(f"{name}: exit={r.returncode} {lines[0][:200] if lines else ''}", flush=True)
     finally:
         subprocess.run(["git", "checkout", "--", path], cwd=R)
+        fcntl.flock(lk, fcntl.LOCK_UN)
+        lk.close()
